@@ -8,56 +8,7 @@ from .. import featmat
 ID = 'C20'
 
 
-def conj_leaves(b, op='and'):
-    if isinstance(b, B) and b.k == op: return conj_leaves(b.a[0], op) + conj_leaves(b.a[1], op)
-    return [b]
-
-
-def truth(v):
-    """True / False / symbolic B for a returned bool"""
-    if isinstance(v, B):
-        if v.k == 'const': return v.a[0]
-        return v
-    if v.is_const(): return v.const_value() != 0
-    return as_bool(v)
-
-
-def all_or_none(ctx, key, res, preds, rule, where, true_of=lambda p: None):
-    """paths of a boolean/Option-valued lift: 'success' exactly when every predicate holds.
-    preds: list of B; true_of(path) -> True (all hold) / False (some fails) / B (symbolic: both continuations)"""
-    ok_paths = 0
-    cases = []
-    for k, p in enumerate(res.paths):
-        if p.out != 'ret':
-            ctx.ob('%s/path%d' % (key, k), False, rule, where, 'returns', p.out + ' ' + str(p.panic)); continue
-        conds = []
-        for c in p.conds: conds.extend(conj_leaves(c))
-        good = true_of(p)
-        if isinstance(good, B):
-            cases.append((conds + conj_leaves(good), True, '%da' % k))
-            # the failing continuation: a disjunction of negated leaves; one case per negated leaf
-            for j, leaf in enumerate(conj_leaves(good)):
-                cases.append((conds + [leaf.neg()], False, '%db%d' % (k, j)))
-        else:
-            cases.append((conds, bool(good), str(k)))
-    for conds, good, k in cases:
-        if good:
-            ok_paths += 1
-            missing = [str(q) for q in preds if not any(q == c for c in conds)]
-            ctx.ob('%s/success-needs-all' % key, not missing, rule, where, 'every element predicate on the success path', 'missing: %s' % missing[:3])
-        else:
-            negs = [q.neg() for q in preds]
-            hit = any(any(nq == c for c in conds) for nq in negs)
-            ctx.ob('%s/failure-needs-one/%s' % (key, k), hit, rule, where, 'some element predicate false on this failing path', [str(c) for c in conds][:4])
-        foreign = [str(c) for c in conds if not any(c == q or c == q.neg() for q in preds)]
-        ctx.ob('%s/only-element-predicates/%s' % (key, k), not foreign, rule, where, 'conditions are element predicates only', foreign[:3])
-    ctx.ob('%s/one-success-path' % key, ok_paths == 1, rule, where, 1, ok_paths)
-
-
-def opt_pred(r): return as_bool(fn('discr', r))
-
-
-def opt_payload(r): return fn('field:0', fn('variant:1', r))
+from ..rules import *
 
 
 BIN_CHECKED = [('CheckedAdd', 'checked_add'), ('CheckedSub', 'checked_sub'), ('CheckedMul', 'checked_mul'), ('CheckedDiv', 'checked_div'), ('CheckedRem', 'checked_rem'), ('CheckedEuclid', 'checked_div_euclid'), ('CheckedEuclid', 'checked_rem_euclid')]
